@@ -273,6 +273,14 @@ func (c *Ctx) ruleOnceGuardedReads(rule string) {
 					}
 					return true
 				})
+				if !guarded {
+					// the object was handed over by a helper that passes the Once on it before returning it
+					if dc, k := definingCall(f, sel.X); dc != nil {
+						if g := c.fnOf(callee(f.Pkg, dc)); g != nil && c.returnsGated(g, k, oi) {
+							guarded = true
+						}
+					}
+				}
 				key := fmt.Sprintf("%s | %s read of %s #%d", onceKey, f.Name(), fv.Name(), perFn)
 				if guarded {
 					r.OkTrivial(rule, key, "after the Once (Do or a gate method on the same object)", c.pos(sel.Pos()))
@@ -287,4 +295,58 @@ func (c *Ctx) ruleOnceGuardedReads(rule string) {
 			r.Ok(rule, onceKey, fmt.Sprintf("initialises {%v}; %d reads outside the once-only code, each behind the Once; %d functions run only under it", ws, n, len(oi.inside)), "")
 		}
 	}
+}
+
+// returnsGated: every return of g whose k-th result is not the nil literal returns a variable on which the Once (Do or
+// a gate method) was passed on every path to that return.
+func (c *Ctx) returnsGated(g *Fn, k int, oi *onceInfo) bool {
+	fc := c.cfgOf(g)
+	ok, n := true, 0
+	ast.Inspect(g.Decl.Body, func(nd ast.Node) bool {
+		if _, isLit := nd.(*ast.FuncLit); isLit {
+			return false
+		}
+		ret, isRet := nd.(*ast.ReturnStmt)
+		if !isRet || k >= len(ret.Results) {
+			return true
+		}
+		res := ret.Results[k]
+		if isNil(g.Pkg, res) {
+			return true
+		}
+		n++
+		want := c.stableExpr(g, res, nil)
+		gated := false
+		ast.Inspect(g.Decl.Body, func(m ast.Node) bool {
+			call, isCall := m.(*ast.CallExpr)
+			if !isCall || gated {
+				return true
+			}
+			cal := callee(g.Pkg, call)
+			csel, isSel := ast.Unparen(call.Fun).(*ast.SelectorExpr)
+			if cal == nil || !isSel {
+				return true
+			}
+			var on ast.Expr
+			switch {
+			case isStdOnceDo(cal):
+				if fieldSel(g.Pkg, csel.X) == oi.field {
+					if o2, ok := ast.Unparen(csel.X).(*ast.SelectorExpr); ok {
+						on = o2.X
+					}
+				}
+			case oi.gates[cal]:
+				on = csel.X
+			}
+			if on != nil && c.stableExpr(g, on, nil) == want && call.End() <= ret.Pos() && fc.dominatedBy(ret, call) {
+				gated = true
+			}
+			return true
+		})
+		if !gated {
+			ok = false
+		}
+		return true
+	})
+	return ok && n > 0
 }
